@@ -31,7 +31,7 @@ class C01(Check):
     run_timeout_s = 60.0
     block = 100
     rule = ("schedule = seeded list of init/update/query requests against one CombiScheme (d<=5, lmin<=3, "
-            "lmax-lmin<=4, <=40 ops; first 100 runs walk the (d,lmin,lmax) grid); update arguments by class: active "
+            "lmax-lmin<=4, <=40 ops; first 100 runs walk the (d,lmin,lmax) grid) and closed-form requests with varying levels against one long-lived non-adaptive object; update arguments by class: active "
             "index by rank, old index, inadmissible forward neighbour, arbitrary vector, below-lmin vector, same "
             "request again; passed as list/tuple/ndarray. A state is the pair (old set, active set); "
             "distinct_nontrivial counts distinct states over all steps of all runs that differ from the run's "
@@ -41,7 +41,7 @@ class C01(Check):
     assumptions = ["exploration by seeded sampling: a clean batch is evidence about the explored histories only",
                    "coefficients are compared exactly (integers)"]
     expected_probes = ["update_refined", "update_refused", "lmax_adaptive_raised", "reinit", "neighbour_inadmissible",
-                       "closed_form_checked"]
+                       "closed_form_checked", "closed_form_repeated_request"]
 
     def setup(self):
         import numpy  # noqa
@@ -62,7 +62,7 @@ class C01(Check):
         # per-run swarm weights
         w = {"active": o.choice([1, 3, 6, 10]), "old": o.choice([0, 1, 2]), "inadm": o.choice([0, 1, 2]),
              "outside": o.choice([0, 1, 2]), "below": o.choice([0, 1]), "again": o.choice([0, 1, 2]),
-             "query": o.choice([0, 1, 3]), "reinit": o.choice([0, 0, 0, 1])}
+             "query": o.choice([0, 1, 3]), "reinit": o.choice([0, 0, 0, 1]), "closed": o.choice([0, 0, 1, 2])}
         kinds = [k for k, v in w.items() for _ in range(v)]
         ops = [["init", lmax, lmin]]
         for _ in range(nops):
@@ -70,6 +70,10 @@ class C01(Check):
             if k == "reinit":
                 lm = o.choice([0, 1, 2, 3])
                 ops.append(["init", lm + o.choice([0, 1, 2, 3]), lm])
+            elif k == "closed":
+                # a further closed-form request to the run's long-lived non-adaptive object (repeated requests with other levels)
+                lm = o.choice([0, 1, 2, 3])
+                ops.append(["closed", lm + o.choice([0, 1, 1, 2, 3]), lm])
             elif k == "query":
                 ops.append(["query", o.choice(["is_refinable", "in_index_set", "is_old_index", "has_forward_neighbour",
                                                "extendable_level"]), o.randrange(10 ** 6)])
@@ -108,10 +112,25 @@ class C01(Check):
         import numpy as np
         d = sched["config"]["dim"]
         cs = self.CombiScheme(d)
+        cf = self.CombiScheme(d)        # never initialised adaptively: answers closed-form requests throughout the run
         last = None
         lmin = None
         for op in sched["ops"]:
             ctx.step()
+            if op[0] == "closed":
+                _, cmax, cmin = op
+                ref = self.CombiScheme(d)
+                ref.init_adaptive_combi_scheme(cmax, cmin)
+                m2 = _as_map(ref.getCombiScheme(do_print=False), ctx, "adaptive", d)
+                m3 = _as_map(cf.getCombiScheme(cmin, cmax, do_print=False), ctx, "closed_form", d)
+                ctx.ev("closed", cmax, cmin)
+                ctx.probe("closed_form_repeated_request")
+                if m3 != m2:
+                    ctx.violate("closed_form_equals_adaptive", {"dim": d, "object": "reused"},
+                                "d=%d lmin=%d lmax=%d: closed form of a non-adaptive object that answered other requests before = %s, freshly initialised adaptive scheme = %s" % (
+                                    d, cmin, cmax, sorted(m3.items()), sorted(m2.items())))
+                ctx.ok("closed_form_equals_adaptive")
+                continue
             if op[0] == "init":
                 _, lmax, lmin = op
                 # closed form of an un-initialised scheme vs the freshly initialised adaptive one
@@ -127,6 +146,11 @@ class C01(Check):
                 if m1 != m2:
                     ctx.violate("closed_form_equals_adaptive", {"dim": d},
                                 "d=%d lmin=%d lmax=%d closed=%s adaptive=%s" % (d, lmin, lmax, sorted(m1.items()), sorted(m2.items())))
+                m3 = _as_map(cf.getCombiScheme(lmin, lmax, do_print=False), ctx, "closed_form", d)
+                if m3 != m2:
+                    ctx.violate("closed_form_equals_adaptive", {"dim": d, "object": "reused"},
+                                "d=%d lmin=%d lmax=%d: closed form of a non-adaptive object that answered other requests before = %s, adaptive = %s" % (
+                                    d, lmin, lmax, sorted(m3.items()), sorted(m2.items())))
                 ctx.ok("closed_form_equals_adaptive")
             elif op[0] == "update":
                 _, kind, arg, how = op
